@@ -197,7 +197,9 @@ def catalogue(tier="quick", seed=0):
     cat.append(struct([("i", inner), ("j", inner), ("z", I64)]))
     cat.append(struct([("aa", array(array(I8, (None,)), (None,))), ("t", dyn_struct())]))
     # four dynamic fields, two pairs of the same type (offset words for the 2nd..4th; equal-size redistribution)
-    cat.append(struct([("p", array(I8, (None,))), ("k", I32), ("q", array(I8, (None,))), ("s", STR), ("u", STR)], "Q"))
+    cat.append(struct([("p", array(F64, (None,))), ("k", I32), ("q", array(F64, (None,))), ("s", STR), ("u", STR)], "Q"))
+    # a zero-length static array next to a dynamic array of the same item type and rank (distinct classes, distinct names)
+    cat.append(struct([("e", array(F64, (0,))), ("d", array(F64, (None,))), ("n", I64)], "Z"))
     cat.append(array(struct([("p", array(I16, (None,))), ("q", array(I16, (None,))), ("r", array(I16, (None,)))], "Q"), (None,)))
     # references
     t1 = dyn_struct()
